@@ -164,7 +164,11 @@ func sendPaths(r *lib.Run, rng *lib.Rand, n int) {
 			s.ICMP6SendNeighborAdvertisement(packet.Addr{MAC: mac(), IP: ip6()}, packet.Addr{MAC: mac(), IP: ip6()}, packet.Addr{MAC: mac(), IP: ip6()})
 			emit("ICMP6SendNeighborAdvertisement")
 		case 3:
-			s.ICMP6SendNeighbourSolicitation(packet.Addr{MAC: mac(), IP: ip6()}, packet.Addr{MAC: mac(), IP: ip6()}, ip6())
+			src6 := ip6()
+			if (i/6)%4 == 2 { // (a round without an injected write error) duplicate address detection: a solicitation from the unspecified address
+				src6 = netip.IPv6Unspecified()
+			}
+			s.ICMP6SendNeighbourSolicitation(packet.Addr{MAC: mac(), IP: src6}, packet.Addr{MAC: mac(), IP: ip6()}, ip6())
 			emit("ICMP6SendNeighbourSolicitation")
 		case 4:
 			s.ICMP6SendRouterSolicitation()
